@@ -11,6 +11,7 @@ import (
 func init() {
 	register(&PropDef{ID: "C16", Title: "pip:try runs exactly the matching handler and contains the body's failure", Rules: rulesC16,
 		Explanation: "Submissions are identified by the command argument that feeds their input (?body/?success/?fail/?finally struct tags), not by position. Decided (structural necessary conditions, pipc.Try and its goroutine): R1 the body is submitted with a scope built by scope.New without a shared ContextScope (its own context), never the surrounding scope; R2 every handler submission is dominated by Wait() on that body scope; R3 the fail handler is submitted only on the non-nil edge of that Wait's result, the success handler only on its nil edge, the finally handler on an edge that does not depend on the result, and no return is reachable after the Wait without passing the finally test; R4 AddTasks(1) on the surrounding scope succeeded before the body is submitted and DoneTask is reached on every path (directly, or deferred in the handler goroutine that is started on every remaining path); R5 handlers run in the surrounding scope and a failing handler submission is appended to it; R6 the Wait the handlers are ordered after (scope.Scope.Wait) really waits for the scope's task group on every path, so 'finished' includes the tasks the body spawned. " +
+			"R6 also: Scope.Close reaches Wait on every path and scope.NewChild registers every child with its parent on every path (so 'the body has finished' includes failed scopes' tasks and children that use their own context). " +
 			"NOT decided: timing of nested tasks at run time (covered structurally by C11.R4 and C14.R3).",
 	})
 }
